@@ -60,7 +60,7 @@ package http
 //@   loop 1 invariant emitted + len(eventBuff) == rpos
 //@   loop 1 invariant seqeq(eventBuff, body, emitted) && nochr(eventBuff, '\n')
 //@   loop 1 invariant disjoint(readBuff, eventBuff) && len(readBuff) == old_len
-//@   ghost old_len int
+//@   ghost old_len int = 0
 //@   callee newReadBuff()
 //@     set old_len := len(result)
 //@   callee newEventBuffs()
@@ -94,3 +94,49 @@ package http
 //@   callee Get() (r)
 //@     pure
 //@     ensures isnil(r) || typeis(r, "*[]byte")
+
+// serveBulk: the success body (200) is written only after processBulk returned nil,
+// i.e. after every line of the body was handed to the pipeline; on any error the
+// response is an error status and the success body is not written.
+
+//@ func (*Plugin).serveBulk
+//@   requires p.params.PipelineSettings.AvgEventSize >= 0
+//@   ghost body seq
+//@   ghost bulkOK bool = false
+//@   ghost bulkDone bool = false
+//@   ghost nwrite int = 0
+//@   ensures nwrite <= 1 && (nwrite == 1 ==> bulkDone && bulkOK)
+//@   callee processBulk(rd, m) (err)
+//@     set bulkOK := err == nil
+//@     set bulkDone := true
+//@   callee Write(b) (n, err)
+//@     requires bulkDone && bulkOK && nwrite == 0
+//@     set nwrite := nwrite + 1
+//@   callee Error(w2, msg, code)
+//@     pure
+//@   callee Get(k)
+//@     pure
+//@   callee acquireGzipReader(rd)
+//@     pure
+//@   callee putGzipReader(z)
+//@     pure
+
+// Source ids of concurrent requests: the free list (guarded by Plugin.mu) holds
+// distinct ids below sourceSeq; getSourceID takes the id it returns out of the list.
+
+//@ monitor Plugin.mu
+//@   self p
+//@   protects sourceIDs, sourceSeq
+//@   invariant allrange(p.sourceIDs, 0, p.sourceSeq) && distinct(p.sourceIDs)
+
+//@ func (*Plugin).getSourceID
+//@   ensures !held(p.mu)
+//@   assert at "l := len(p.sourceIDs)" len(p.sourceIDs) >= 1
+//@   assert at "l := len(p.sourceIDs)" allrange(p.sourceIDs, 0, p.sourceSeq)
+//@   assert at "l := len(p.sourceIDs)" distinct(p.sourceIDs)
+//@   assert at "p.mu.Unlock()" forall k :: 0 <= k && k < len(p.sourceIDs) ==> p.sourceIDs[k] != x
+//@   assert at "p.mu.Unlock()" 0 <= x && x < p.sourceSeq
+
+//@ func (*Plugin).putSourceID
+//@   ensures !held(p.mu)
+//@   assume at "p.sourceIDs = append(p.sourceIDs, x)" 0 <= x && x < p.sourceSeq && (forall k :: 0 <= k && k < len(p.sourceIDs) ==> p.sourceIDs[k] != x)
